@@ -63,7 +63,7 @@ CHECKS["C10"] = {
     "category": "translation_validation",
     "text": "Sorts.tla (mirror of rz_il_validate: operand widths, bool vs bit vector, ITE arms, local sort stability across all paths, register-write and "
             "store widths, LET scoping, SEQN arity, call arguments, inlined callee bodies) is evaluated by TLC on every observed effect of the artefact "
-            "set: corpus parts, bundled sub-routines, generated programs mixing logical/comparison results with arithmetic; both layouts",
+            "set: corpus parts, bundled sub-routines, generated programs mixing logical/comparison results with arithmetic; both layouts; the operand catalogue of Gen_C07 (every operand letter x access kind, JUMP, loads/stores); the plugin-owned locals jump_target (32-bit PC) and jump_flag (boolean) have fixed sorts",
     "note": TB + "; sort rules transcribed from Rizin's documentation (Rizin itself is not in the sandbox)",
     "technique": "TLC evaluation of a TLA+ RzIL sort checker on observed compiler output",
 }
@@ -71,14 +71,14 @@ CHECKS["C11"] = {
     "category": "model_checking",
     "text": "the emitted text of every artefact is read by an independent C-declaration reader and replayed statement by statement through the EmitC "
             "state machine (declared once, declared before use, valid identifiers, known callees, hi/pkt in scope only if the needs-hi/needs-pkt flag or "
-            "the sub-routine prologue provides them); Meta.tla checks one getter per part, prototype form and uniqueness over all 2181 instructions",
+            "the sub-routine prologue provides them); Meta.tla checks one getter per part, prototype form and uniqueness over all 2181 instructions; artefact set includes the operand catalogue of Gen_C07 and the hybrid programs of Gen_C06; generated sub-routine definitions whose parameter names contain 'hi' / 'pkt' and whose bodies need those variables",
     "note": "trusted base: TLC, EmitC.tla, Meta.tla, the emitted-text reader (understands C syntax, not the golden layout)",
     "technique": "trace validation of the emitted statement sequence against a TLA+ state machine",
 }
 CHECKS["C12"] = {
     "category": "model_checking",
     "text": "the same statement traces are validated against the ownership clauses of EmitC.tla: every pure/effect variable has exactly one un-DUP'ed use, "
-            "DUP only on pures, borrowed parameters at most one raw use, nothing initialised is left unconsumed",
+            "DUP only on pures, borrowed parameters at most one raw use, nothing initialised is left unconsumed; artefact set includes the operand catalogue of Gen_C07 and the hybrid programs of Gen_C06 (named deviation StmtExprTwin for the duplicated statement of a statement-expression)",
     "note": "trusted base: TLC, EmitC.tla, the emitted-text reader; counting is on the identifier level of the text as emitted",
     "technique": "trace validation of the emitted statement sequence against a TLA+ ownership state machine",
 }
@@ -130,7 +130,7 @@ CHECKS["C09"] = {
     "category": "translation_validation",
     "text": "literal spellings (dec/hex x suffixes x values around 2^7..2^64-1) in type-revealing contexts, folding of literal pairs under 10 operators, "
             "constant-condition ?: whose dead arm shares operands with live code, and sizeof of every operand kind are compiled and evaluated by TLC "
-            "against the C semantics (literal typing per C11 6.4.4.1); literal division by zero must be rejected",
+            "against the C semantics (literal typing per C11 6.4.4.1); literal division by zero must be rejected; folding over negative / complemented folded operands against signed and unsigned literals (11 operators); sizeof of comparison / logical expressions",
     "note": TB,
     "technique": "TLC translation validation of generated constant-folding programs",
 }
@@ -139,7 +139,7 @@ CHECKS["C06"] = {
     "text": "9 value-producing side-effecting operations (postfix ++/-- on a local and a register, bundled / generated / nested calls, statement-"
             "expressions) in 13 positions, surrounded by non-commuting updates of the object they modify, and seeded pairs of them are compiled in both "
             "layouts; TLC compares the final state with the C semantics (exactly once, in order, only when selected) on every low-byte input; Sorts "
-            "tracks locals that may be read before they are written",
+            "tracks locals that may be read before they are written; statement-expressions in both arms of ?: (3 x 3 pairs, three contexts incl. nested ?:)",
     "note": TB + "; four listed findings (unguarded hybrids in ?: arms, unused hybrid statements, && right operands, loop conditions) are keyed by "
                  "shape predicates of spec/Shapes.tla",
     "technique": "TLC translation validation of generated hybrid-placement programs",
@@ -149,7 +149,7 @@ CHECKS["C08"] = {
     "text": "15 generated sub-routines registered through add_sub_routine plus the bundled ones; 64 argument/return type pairs, single calls, expressions "
             "with 2..4 calls, name clashes, live temporaries, calls in loops/conditions/arguments; compiled on long-lived compilers and on a fresh "
             "compiler per program; TLC executes the caller with the observed callee bodies inlined by term substitution in the flat IL namespace and "
-            "compares with C call semantics (parameter conversion, callee-local scope, return conversion, frame condition on caller locals)",
+            "compares with C call semantics (parameter conversion, callee-local scope, return conversion, frame condition on caller locals); nested callees that share parameter names with their callers while a caller temporary is live; the same operand passed to parameters of different types",
     "note": TB + "; by-reference register operands are bound by spelling as the compiler does",
     "technique": "TLC translation validation with inlined observed callee bodies",
 }
@@ -158,7 +158,7 @@ CHECKS["C15"] = {
     "text": "each construct without a translation (break, continue, goto, labels, switch/case, comma, while, do, unknown calls, [] . -> prefix ++/-- * &) "
             "is placed at 8 statement / 6 expression positions around supported code; if the compiler returns code, CSem!HasMeaning decides whether that "
             "is itself the violation (goto, labels, switch, member access, ...) or whether the code must be right (while, do, break/continue, comma, "
-            "prefix: TLC validates it) and every declared effect must be sequenced",
+            "prefix: TLC validates it) and every declared effect must be sequenced; supported statement shapes whose last item must not get lost (statement-expression tails, blocks, loops), side-effecting sub-expressions nested in one another, label-less switch, unknown calls without arguments; an effect that is declared but never sequenced is a violation regardless of any listed finding",
     "note": TB,
     "technique": "TLC-enumerated unsupported-construct placements + translation validation of whatever is accepted",
 }
@@ -170,7 +170,7 @@ CHECKS["C17"] = {
             "and assignment nestings, if/else nestings incl. dangling else); the texts (plus blank variants around & / &&, 140 operand-like "
             "identifiers, statement-expression forms and corpus behaviours) are parsed by the real Lark parser, the trees are projected rule-by-rule "
             "and TLC compares them with the generating trees / the independent parser's trees; repeated under other hash seeds with fresh and "
-            "reused parser objects in shuffled order",
+            "reused parser objects in shuffled order; casts in front of unary operators behind every binary operator; explicit register numbers 0..31",
     "note": "trusted base: TLC, Grammar.tla, the Lark-tree projection (rule name -> constructor) and the independent recursive-descent parser",
     "technique": "TLC-checked unparse/parse bijection + call-trace validation of the real parser",
 }
@@ -183,7 +183,7 @@ CHECKS["C20"] = {
             "definitions (seeded sample of ~230 in quick, all 2181 in thorough) under the bundled patched macro table and compares token-wise "
             "with the bundled resolved lines, checks that no macro invocation survives and names are one-to-one; generated wrapper bodies and "
             "generated macro/patch sets (duplicates, continuations, comments, user-only patches) are run through the real replace_do_while_0 / "
-            "patch_macros and validated by TLC; the whole pipeline is regenerated in a scratch copy and compared with the bundled files",
+            "patch_macros and validated by TLC; the whole pipeline is regenerated in a scratch copy and compared with the bundled files; generated definitions (bundled macros nested / glued to statement heads) run through the real pipeline; generated header files (guards, QEMU_GENERATE / CONFIG_USER_ONLY blocks, comments, continuation lines) through cleanup_macros against the conditional-inclusion model of Cpp.tla",
     "note": "trusted base: TLC, Cpp.tla, the pp-tokeniser harness/front/cpptok.py; pastes that do not give a valid pp-token (undefined in C11) "
             "are modelled as 'kept apart'",
     "technique": "TLC evaluation of a TLA+ preprocessor specification against the bundled/regenerated artefacts and recorded function results",
